@@ -108,6 +108,120 @@ def do_replay(path):
     return 0
 
 
+# ------------------------------------------------------------------ parallel discharge (fork: workers inherit the z3 terms)
+
+_JOBS = []
+
+
+def _solve_job(i):
+    key, what, to, all_solvers = _JOBS[i]
+    if isinstance(what, list):                      # a complete path condition: the reachability canary
+        text, wv = smt.to_smt2(what, None), None
+    elif what.kind == 'cover':
+        text, wv = smt.to_smt2(what.pc, None), None
+    else:
+        leaves = api.want_values(what)
+        text = smt.to_smt2(what.pc, what.goal, negate=True, mention=leaves or ())
+        wv = [t.sexpr() for t in leaves] if leaves else None
+    return i, smt.solve_text(text, str(key), to, wv, all_solvers)
+
+
+def _discharge(jobs, all_solvers):
+    """serialise and solve every job; serialisation (walking z3 terms through the Python API) costs as much as solving, so both
+    happen in forked workers that inherit the terms.  Consecutive obligations (same path) stay in one worker: its cache of
+    collected applications is then effective."""
+    import multiprocessing
+    global _JOBS
+    _JOBS = [(key, what, to, all_solvers) for key, what, to in jobs]
+    smt.scratch()
+    workers = int(os.environ.get('VERIF_WORKERS', 16))
+    out = {}
+    if not _JOBS:
+        return out
+    if workers <= 1 or len(_JOBS) < 4:
+        for i in range(len(_JOBS)):
+            out[_JOBS[i][0]] = _solve_job(i)[1]
+        return out
+    ctx = multiprocessing.get_context('fork')
+    with ctx.Pool(min(workers, len(_JOBS))) as pool:
+        for i, res in pool.imap_unordered(_solve_job, range(len(_JOBS)), chunksize=max(1, min(8, len(_JOBS) // (workers * 4)))):
+            out[_JOBS[i][0]] = res
+    return out
+
+
+def _bounded_runs(runs, tier, known, prop):
+    recs = []
+    for p, r in runs:
+        if p.samples is None:
+            continue
+        n = ok = skipped = 0
+        t0 = time.time()
+        first_bad = None
+        hits = []
+        budget = 20 if tier == 'quick' else 300
+        for inputs in p.samples():
+            if time.time() - t0 > budget:
+                break
+            n += 1
+            status, detail = api.run_native(p, inputs)
+            if status == 'ok':
+                ok += 1
+            elif status == 'skip':
+                skipped += 1
+            else:
+                kf = known_match(known, prop, p.name, inputs)
+                if kf is not None:
+                    hits.append(kf)
+                    continue
+                if first_bad is None:
+                    first_bad = (inputs, detail)
+        recs.append(dict(proof=p.full, known=hits, first_bad=first_bad,
+                         entry=dict(proof=p.full, tool="run-time contract check of the real function (CPython)", cases=n, passed=ok,
+                                    precondition_false=skipped, bound=p.note or "sample generator in the contract file",
+                                    seconds=round(time.time() - t0, 2))))
+    return recs
+
+
+def _start_bounded(runs, tier, known, prop):
+    """run the bounded cases in a forked child (they are CPU-bound CPython runs of the real code and independent of the solvers);
+    falls back to running them in this process if the result cannot be sent back"""
+    import multiprocessing
+    import pickle
+    ctx = multiprocessing.get_context('fork')
+    parent, child = ctx.Pipe(duplex=False)
+
+    def work():
+        try:
+            recs = _bounded_runs(runs, tier, known, prop)
+            payload = pickle.dumps(recs)
+        except Exception as e:      # noqa  (unpicklable inputs, a crash of the harness): the parent repeats the runs itself
+            payload = pickle.dumps(('error', repr(e)))
+        child.send_bytes(payload)
+        child.close()
+
+    proc = ctx.Process(target=work)
+    proc.start()
+    child.close()
+    return proc, parent, (runs, tier, known, prop)
+
+
+def _collect_bounded(handle):
+    import pickle
+    proc, parent, args = handle
+    recs = None
+    try:
+        recs = pickle.loads(parent.recv_bytes())
+    except Exception:       # noqa
+        recs = None
+    proc.join()
+    if not isinstance(recs, list):
+        recs = _bounded_runs(*args)
+    by_name = {p.full: p for p, r in args[0]}
+    for rec in recs:
+        rec['proof'] = by_name[rec['proof']]
+    return recs
+
+
 def run_property(prop, tier, seed):
     t_start = time.time()
     random.seed(seed)
@@ -135,21 +249,16 @@ def run_property(prop, tier, seed):
         r = api.generate(p)
         runs.append((p, r))
         for k, ob in enumerate(r.obligations):
-            wv = api.want_values(ob) if ob.kind != 'cover' else None
-            text = smt.to_smt2(ob.pc, ob.goal, negate=True, mention=wv or ()) if ob.kind != 'cover' else smt.to_smt2(ob.pc, None)
-            jobs.append(((p.full, k), text, [t.sexpr() for t in wv] if wv else None, p.timeout or timeout))
+            jobs.append(((p.full, k), ob, p.timeout or timeout))
         # vacuity canary: some complete path must be satisfiable together with the library axioms
         if r.path_pcs:
             idxs = sorted({0, len(r.path_pcs) // 2, len(r.path_pcs) - 1})
             for i in idxs:
-                jobs.append(((p.full, 'canary', i), smt.to_smt2(r.path_pcs[i], None), None, 5))
-    results = {}
-    by_timeout = {}
-    for key, text, wv, to in jobs:
-        by_timeout.setdefault(to, []).append((key, text, wv))
+                jobs.append(((p.full, 'canary', i), r.path_pcs[i], 5))
+    # the bounded run-time contract cases run in a forked child while the obligations are being discharged
+    bounded_child = _start_bounded(runs, tier, known, prop)
+    results = _discharge(jobs, all_solvers=(tier == 'thorough'))
     solver_time = 0.0
-    for to, js in by_timeout.items():
-        results.update(smt.solve_many(js, timeout=to, all_solvers=(tier == 'thorough')))
 
     exit_code = 0
     violations = []
@@ -253,34 +362,12 @@ def run_property(prop, tier, seed):
             bump(2)
 
     # bounded run-time contract checking (stand-ins and refutation finder); never counted as proved
-    for p, r in runs:
-        if p.samples is None:
-            continue
-        n = ok = skipped = 0
-        t0 = time.time()
-        first_bad = None
-        budget = 20 if tier == 'quick' else 300
-        for inputs in p.samples():
-            if time.time() - t0 > budget:
-                break
-            n += 1
-            status, detail = api.run_native(p, inputs)
-            if status == 'ok':
-                ok += 1
-            elif status == 'skip':
-                skipped += 1
-            else:
-                kf = known_match(known, prop, p.name, inputs)
-                if kf is not None:
-                    known_hits.append((kf, f"{p.full}::runtime"))
-                    continue
-                if first_bad is None:
-                    first_bad = (inputs, detail)
-        bounded.append(dict(proof=p.full, tool="run-time contract check of the real function (CPython)", cases=n, passed=ok,
-                            precondition_false=skipped, bound=p.note or "sample generator in the contract file",
-                            seconds=round(time.time() - t0, 2)))
-        if first_bad is not None:
-            inputs, detail = first_bad
+    for rec in _collect_bounded(bounded_child):
+        p = rec['proof']
+        known_hits.extend((kf, f"{p.full}::runtime") for kf in rec['known'])
+        bounded.append(rec['entry'])
+        if rec['first_bad'] is not None:
+            inputs, detail = rec['first_bad']
             path = write_replay(prop, p, f"{p.full}::runtime-contract", inputs, detail)
             violations.append(dict(obligation=f"{p.full}::runtime-contract", replay=path, inputs=api.jsonable(inputs), detail=detail))
             bump(1)
@@ -328,6 +415,14 @@ def run_property(prop, tier, seed):
     trusted = list(getattr(mod, 'TRUSTED', []))
     level = 'proof' if total > 0 and discharged + known_refuted == total and \
         not any(r is not None and r.error for _, r in runs) else 'other'
+    # never report more than MANIFEST claims for the property (C12: contracts carry a minority of the statement -> 'other')
+    try:
+        with open(os.path.join(VERIF, 'MANIFEST.json')) as f:
+            claimed = {c['property_id']: c['level_claimed']['category'] for c in json.load(f).get('checks', [])}
+        if claimed.get(prop) and claimed[prop] != 'proof':
+            level = claimed[prop]
+    except Exception:       # noqa
+        pass
     wall = time.time() - t_start
     evidence = dict(
         property_id=prop, tier=tier, seed=seed, level=level,
